@@ -314,6 +314,11 @@ def evalMulti (j : Json) (obs : Json) : E Verdict := do
   let arg ← field j "arg"
   let rel ← (← field arg "rel").getStr?
   let runs ← jArr (← field j "runs")
+  -- the worker did not survive the case (watchdog, memory limit): none of the calls is known to have returned
+  if let some c := fieldOpt obs "crash" then
+    let key := if rel == "rename" then "C08" else if rel == "scale" then "C17" else "C09"
+    let site := (fieldOpt obs "site").bind (·.getStr?.toOption) |>.getD ""
+    return (({} : Verdict).add key false s!"a call of the pair did not return: {c.getStr?.toOption.getD "?"}@{site}")
   let outs ← jArr (← field obs "outs")
   let rs ← (runs.zip outs).mapM fun (r, o) => parseRun r o
   let mut v : Verdict := {}
